@@ -621,25 +621,25 @@ def gen_groups(rng, count=40):
     return out
 
 
-def quick_family(seed, scale=1):
+def quick_family(seed, scale=1.0):
     """The configurations of the quick tier (a few hundred)."""
     rng = random.Random(seed * 7919 + 13)
     out = []
-    ser = gen_serial(rng, 3, 260 * scale, horizon=(16, 24, 40))
+    ser = gen_serial(rng, 3, max(4, int(260 * scale)), horizon=(16, 24, 40))
     out += ser
-    out += [add_faults(rng, c, rng.choice([1, 2, 3])) for c in gen_serial(rng, 3, 90 * scale)
+    out += [add_faults(rng, c, rng.choice([1, 2, 3])) for c in gen_serial(rng, 3, max(4, int(90 * scale)))
             if any(d['kind'] == 'processor' for d in c['devs'])]
-    par = gen_parallel(rng, 60 * scale)
+    par = gen_parallel(rng, max(4, int(60 * scale)))
     out += par
-    out += [add_faults(rng, c, rng.choice([1, 2, 4])) for c in gen_parallel(rng, 60 * scale)]
-    res = gen_resources(rng, 60 * scale)
+    out += [add_faults(rng, c, rng.choice([1, 2, 4])) for c in gen_parallel(rng, max(4, int(60 * scale)))]
+    res = gen_resources(rng, max(4, int(60 * scale)))
     out += res
-    out += [add_faults(rng, c, rng.choice([1, 2, 4])) for c in gen_resources(rng, 60 * scale)]
-    out += gen_targeted(rng, 120 * scale)
-    out += gen_batch(rng, 90 * scale)
-    out += gen_gates(rng, 70 * scale)
-    out += gen_groups(rng, 60 * scale)
-    out += [add_faults(rng, c, rng.choice([1, 2, 3])) for c in gen_gates(rng, 40 * scale) + gen_batch(rng, 40 * scale)]
+    out += [add_faults(rng, c, rng.choice([1, 2, 4])) for c in gen_resources(rng, max(4, int(60 * scale)))]
+    out += gen_targeted(rng, max(128, int(128 * scale)))       # the targeted situations are always all there
+    out += gen_batch(rng, max(4, int(90 * scale)))
+    out += gen_gates(rng, max(4, int(70 * scale)))
+    out += gen_groups(rng, max(4, int(60 * scale)))
+    out += [add_faults(rng, c, rng.choice([1, 2, 3])) for c in gen_gates(rng, max(4, int(40 * scale))) + gen_batch(rng, max(4, int(40 * scale)))]
     # split runs: a third of the configurations is also run in two or three consecutive runs
     for c in list(out):
         if rng.random() < 0.2 and not c['splits']:
